@@ -66,8 +66,7 @@ func singleElemSlice(v ssa.Value) bool {
 func (f *Frame) appendOp(x *ssa.Call, c *ssa.CallCommon, at string, st *State) *Val {
 	vc := f.vc
 	s := f.term(c.Args[0])
-	sl := c.Args[0].Type().Underlying().(*types.Slice)
-	comp := vc.S.arrComp(sl.Elem())
+	comp := vc.S.arrComp(c.Args[0].Type())
 	h := vc.heapOf(st, comp)
 	n := "(s_len " + s + ")"
 	var k, tArr, tOff string
@@ -79,6 +78,11 @@ func (f *Frame) appendOp(x *ssa.Call, c *ssa.CallCommon, at string, st *State) *
 	} else {
 		k = "(s_len " + t + ")"
 		tArr, tOff = "(s_arr "+t+")", "(s_off "+t+")"
+	}
+	// the appended elements are read from the source slice's own component
+	hs := h
+	if !tIsStr {
+		hs = vc.heapOf(st, vc.S.arrComp(c.Args[1].Type()))
 	}
 	kk := vc.define(f.nm("app_k"), "Int", k)
 	total := vc.define(f.nm("app_n"), "Int", "(+ "+n+" "+kk+")")
@@ -104,7 +108,7 @@ func (f *Frame) appendOp(x *ssa.Call, c *ssa.CallCommon, at string, st *State) *
 	single := !tIsStr && singleElemSlice(c.Args[1])
 	if single {
 		// k == 1: quantifier-free in-place case
-		elem := sel(sel(h, tArr), tOff)
+		elem := sel(sel(hs, tArr), tOff)
 		fresh := vc.declare(f.nm("app_fresh"), "(Array Int "+comp.VSort+")")
 		vc.ctr++
 		j := fmt.Sprintf("j!%d", vc.ctr)
@@ -112,7 +116,7 @@ func (f *Frame) appendOp(x *ssa.Call, c *ssa.CallCommon, at string, st *State) *
 			j, j, j, n, fresh, j, oldInner, s, j, fresh, j), "append: copied prefix")
 		vc.assume(at, eq(sel(fresh, n), elem), "append: new element")
 		inner = vc.define(f.nm("app_inner"), "(Array Int "+comp.VSort+")",
-			ite(inplace, sto(oldInner, "(+ (s_off "+s+") "+n+")", elem), fresh))
+			ite(inplace, sto(oldInner, "(ix (s_off "+s+") "+n+")", elem), fresh))
 	} else {
 		inner = vc.declare(f.nm("app_inner"), "(Array Int "+comp.VSort+")")
 		vc.ctr++
@@ -121,7 +125,7 @@ func (f *Frame) appendOp(x *ssa.Call, c *ssa.CallCommon, at string, st *State) *
 		vc.assume(at, fmt.Sprintf("(forall ((%[1]s Int)) (! (=> (and (<= %[2]s %[1]s) (< %[1]s (+ %[2]s %[3]s))) (= (select %[4]s %[1]s) (select %[5]s (+ (s_off %[6]s) (- %[1]s %[2]s))))) :pattern ((select %[4]s %[1]s))))",
 			j, rOff, n, inner, oldInner, s), "append: prefix kept")
 		if !tIsStr {
-			tInner := vc.define(f.nm("app_src"), "(Array Int "+comp.VSort+")", sel(h, tArr))
+			tInner := vc.define(f.nm("app_src"), "(Array Int "+comp.VSort+")", sel(hs, tArr))
 			vc.assume(at, fmt.Sprintf("(forall ((%[1]s Int)) (! (=> (and (<= (+ %[2]s %[3]s) %[1]s) (< %[1]s (+ %[2]s %[3]s %[7]s))) (= (select %[4]s %[1]s) (select %[5]s (+ %[6]s (- %[1]s (+ %[2]s %[3]s)))))) :pattern ((select %[4]s %[1]s))))",
 				j, rOff, n, inner, tInner, tOff, kk), "append: appended elements")
 		}
@@ -134,7 +138,7 @@ func (f *Frame) appendOp(x *ssa.Call, c *ssa.CallCommon, at string, st *State) *
 		if tIsStr {
 			tview = "(bytes_of_str " + t + ")"
 		} else {
-			tview = fmt.Sprintf("(bview %s %s %s)", sel(h, tArr), tOff, kk)
+			tview = fmt.Sprintf("(bview %s %s %s)", sel(hs, tArr), tOff, kk)
 		}
 		vc.assume(at, eq(fmt.Sprintf("(bview %s %s %s)", inner, rOff, total),
 			fmt.Sprintf("(bcat (bview %s (s_off %s) %s) %s)", oldInner, s, n, tview)), "append: byte view is the concatenation")
@@ -143,7 +147,7 @@ func (f *Frame) appendOp(x *ssa.Call, c *ssa.CallCommon, at string, st *State) *
 	}
 	if single {
 		// ground instance: the last element of the result is the appended one
-		vc.assume(at, eq(sel(inner, "(+ "+rOff+" "+n+")"), sel(sel(h, tArr), tOff)), "append: last element")
+		vc.assume(at, eq(sel(inner, "(ix "+rOff+" "+n+")"), sel(sel(hs, tArr), tOff)), "append: last element")
 	}
 	st.heap[comp.Name] = vc.define(comp.Name, comp.Sort, sto(h, rArr, inner))
 	r := vc.define(f.nm(x.Name()), "Slice", fmt.Sprintf("(mk_slice %s %s %s %s)", rArr, rOff, total, ite(inplace, "(s_cap "+s+")", newCap)))
@@ -153,8 +157,7 @@ func (f *Frame) appendOp(x *ssa.Call, c *ssa.CallCommon, at string, st *State) *
 func (f *Frame) copyOp(x *ssa.Call, c *ssa.CallCommon, at string, st *State) *Val {
 	vc := f.vc
 	d := f.term(c.Args[0])
-	sl := c.Args[0].Type().Underlying().(*types.Slice)
-	comp := vc.S.arrComp(sl.Elem())
+	comp := vc.S.arrComp(c.Args[0].Type())
 	h := vc.heapOf(st, comp)
 	s := f.term(c.Args[1])
 	if isString(c.Args[1].Type()) {
@@ -166,7 +169,7 @@ func (f *Frame) copyOp(x *ssa.Call, c *ssa.CallCommon, at string, st *State) *Va
 		vc.oblige("frame", "copy:"+vc.P.srcText(x.Pos()), and(at, "(> "+n+" 0)"), goal, vc.P.line(x.Pos()), "copy writes destination", vc.con.Serves)
 	}
 	oldD := sel(h, "(s_arr "+d+")")
-	srcIn := sel(h, "(s_arr "+s+")")
+	srcIn := sel(vc.heapOf(st, vc.S.arrComp(c.Args[1].Type())), "(s_arr "+s+")")
 	inner := vc.declare(f.nm("copy_inner"), "(Array Int "+comp.VSort+")")
 	vc.ctr++
 	j := fmt.Sprintf("j!%d", vc.ctr)
@@ -340,6 +343,7 @@ func (f *Frame) enterLoop(li *loopInfo, b *ssa.BasicBlock, preds []*ssa.BasicBlo
 		for _, cn := range eff.list(vc) {
 			c := vc.S.comps[cn]
 			hn := vc.declare(c.Name+"_loop", c.Sort)
+			vc.heapTypeInv(c, hn, vc.curBlk)
 			if framed {
 				ho := vc.heapOf(f.entryOfTop(), c)
 				for _, fact := range vc.frameFacts(c, hn, ho, entryBound, frameLocs) {
@@ -562,11 +566,15 @@ type FuncResult struct {
 	Notes       []string
 	Assumptions []string
 	NInstr      int
+	vc          *VC
 }
 
-func verifyFunction(P *Program, SS *SpecSet, G *Globals, fn *ssa.Function, con *Contract) (res *FuncResult) {
+func verifyFunction(P *Program, SS *SpecSet, G *Globals, fn *ssa.Function, con *Contract, suffix ...string) (res *FuncResult) {
 	vc := newVC(P, SS, G, fn, con)
-	res = &FuncResult{Name: canonName(fn), Con: con}
+	if len(suffix) > 0 {
+		vc.suffix = suffix[0]
+	}
+	res = &FuncResult{Name: canonName(fn) + vc.suffix, Con: con, vc: vc}
 	for _, b := range fn.Blocks {
 		res.NInstr += len(b.Instrs)
 	}
